@@ -72,6 +72,22 @@ def run(rep, tier, seed):
             else:
                 add({"rparts": [("prim", "flags"), fan], "cond": cond, "cast": None}, {"flags": tw, "n": 1}, "raw")
             continue
+        if rng.random() < 0.06:
+            # tuple-typed arguments: a tuple is not == to the list with the same items, and isinstance takes (nested)
+            # tuples of classes - the rule must judge with the argument exactly as cond.test does
+            L = lambda fn, pre, *a: ("leaf", {"datum": "value", "pre": pre, "fn": fn, "actuals": list(a), "akw": {}})  # noqa: E731
+            items = [rng.choice([1, 2, "a", 2.5]) for _ in range(rng.randint(1, 3))]
+            cond = rng.choice([L("equal_to", "none", tuple(items)), L("not_equal_to", "none", tuple(items)),
+                               L("in_", "none", [tuple(items), 0]), L("is_instance", "none", (int, float)),
+                               L("is_instance", "none", str, (list, (int,))), L("in_", "none", tuple(items)),
+                               L("equal_to", "none", [tuple(items)])])
+            if rng.random() < 0.3:
+                cond = (rng.choice(["and", "or", "xor"]), cond, ("leaf", gen.leaf_recipe(rng, kinds=[("value", "none")])))
+            nodes = [list(items), items[0], [list(items)], "a", 2.5]
+            rng.shuffle(nodes)
+            fan = {"rk": "list", "key": None, "index": None, "value": None, "cond": None, "label": None}
+            add({"rparts": [("prim", "t"), fan], "cond": cond, "cast": None}, {"t": nodes, "n": 1}, rng.choice(["raw", "Data"]))
+            continue
         add(ruledrv.rule_recipe(rng, doc), doc, rng.choice(["raw", "Data"]))
     ruledrv.judge(rep, events, recipes, ruledrv.default_key)
     from harness import repotrace
